@@ -475,8 +475,28 @@ def check_dist(case, ctx):
     V = numpy.array(vec, dtype="float64")
     shifted = [[(x / u + t) * u for x, t, u in zip(p, case["shift"], units)] for p in pts] if exact_grid else None
 
+    def conditioning(rows):
+        """largest |value| / range over the varying objectives: how much a relative rounding error of the inputs is
+        amplified by min-max scaling"""
+        worst = 0.0
+        for j in range(nobj):
+            col = [r[j] for r in rows]
+            rg = max(col) - min(col)
+            if rg > 0.0:
+                worst = max(worst, max(abs(c) for c in col) / rg)
+        return worst
+
+    # The sel/prob variant multiplies the points by the *preference vector* before min-max scaling (F-C19-b).  Where
+    # that is harmless in exact arithmetic (all signs +1, all entries equal) it still rounds every product unless the
+    # entry is a power of two, and min-max scaling amplifies that by |value|/range (a front whose objective varies by
+    # one ulp can even collapse).  The tolerance of the sel variants therefore carries the conditioning of the input.
+    vec_exact = all(v > 0.0 and math.frexp(v)[0] == 0.5 for v in vec)
+    base_tol = tol
+
     for name, fn, is_sel_variant in DIST_FUNCS:
         tag = "dist.%s." % name
+        extra = 0.0 if (vec_exact or not is_sel_variant) else 4.0 * EPS
+        tol = base_tol + extra * conditioning(pts)
         M1, S1, V1 = M.copy(), S.copy(), V.copy()
         out = call(fn, M1, S1, V1)
         ctx.check(isinstance(out, numpy.ndarray) and out.shape == (npt,), tag + "shape", lambda: repr(out))
@@ -505,7 +525,8 @@ def check_dist(case, ctx):
         if shifted is not None:
             M2 = numpy.array(shifted, dtype="float64").reshape(npt, nobj)
             o2 = [float(x) for x in call(fn, M2, S.copy(), V.copy())]
-            ctx.check(all(abs(x - y) <= tol for x, y in zip(got, o2)), tag + "translation_invariance",
+            tol2 = tol + extra * conditioning(shifted)
+            ctx.check(all(abs(x - y) <= tol2 for x, y in zip(got, o2)), tag + "translation_invariance",
                       lambda: "%s: %s -> %s after translating by %s*%s (mat=%s signs=%s vec=%s)"
                       % (name, got, o2, case["shift"], units, pts, signs, vec))
         # order of points
